@@ -1092,7 +1092,13 @@ impl Vec3 {
         // If dot is close to 1 or -1, or is NaN the calculations for t1 and t2 break down
         if math::abs(dot) < 1.0 - 3e-7 {
             // Angle between the vectors [0, +π]
-            let theta = math::acos_approx(dot);
+            let theta = if dot < 0.0 {
+                // The error of the arccosine of `dot` grows like `1 / sin(theta)^2` towards
+                // opposite directions, so take obtuse angles from the cross and dot products.
+                math::atan2(self.cross(rhs).length(), self.dot(rhs))
+            } else {
+                math::acos_approx(dot)
+            };
             // Sine of the angle between vectors [0, 1]
             let sin_theta = math::sin(theta);
             let t1 = math::sin(theta * (1. - s));
